@@ -306,7 +306,11 @@ def values_spec(draw):
     return {"spin": spin, "labels": list(labels), "kind": kind, "terms": terms, "build": draw(_BUILD),
             "ctype": draw(gen.CTYPE),
             # exact big integers (beyond 2^53, low bit set): evaluation must be exact integer arithmetic
-            "bigint": draw(gen.pick((False, 5), (True, 1)))}
+            "bigint": draw(gen.pick((False, 5), (True, 1))),
+            # degree-2 model types: one more key whose monomial has three distinct variables (written with repeated
+            # labels in some order) - the statement's "others must raise KeyError" for construction and item assignment
+            "bad_key": (draw(st.permutations(list(labels[:3]) + [labels[draw(st.integers(0, 2))]] * draw(st.sampled_from([0, 2]))))
+                        if gen.is_quad(kind) and len(labels) >= 3 and draw(st.integers(0, 3)) == 0 else None)}
 
 
 # ---------------------------------------------------------------------------
@@ -1061,6 +1065,26 @@ def run_values(spec, rec):
             obj = lib(gen.build_from_dict, qv, kind, terms, what="build")
         else:
             obj = lib(gen.build, qv, kind, terms, what="build")
+        if spec.get("bad_key") and kind != "dict":
+            bk = tuple(spec["bad_key"])
+            for how in ("setitem", "iadd_item", "constructor"):
+                try:
+                    if how == "setitem":
+                        probe = obj.copy()
+                        lib(probe.__setitem__, bk, 2, what="setitem(degree 3 key)", expect=(KeyError,))
+                    elif how == "iadd_item":
+                        probe = obj.copy()
+
+                        def f():
+                            probe[bk] += 2
+                        lib(f, what="iadd item(degree 3 key)", expect=(KeyError,))
+                    else:
+                        lib(type(obj), {bk: 2}, what="constructor(degree 3 key)", expect=(KeyError,))
+                except KeyError:
+                    continue
+                raise Violation("keyerror_missing/%s" % how,
+                                "%s accepted the key %r, whose monomial has three distinct variables" % (kind, bk))
+            classes.add("degree3_key_rejected")
         if any(len(set(k)) != len(k) for k, _ in terms):
             classes.add("repeated_labels")
         ctxs = "kind=%s spin=%r labels=%r terms=%r" % (kind, spin, labels, terms)
